@@ -18,7 +18,7 @@ type c01Mon struct {
 	last    int  // highest number delivered in this epoch
 	pending bool // a FromApp happened and T has not advanced yet
 	q       int
-	rel     int // last - T at the end of the previous step (state key, valid for absolute and relative keys)
+	rel     int   // last - T at the end of the previous step (state key, valid for absolute and relative keys)
 	kept    []int // numbers of the messages held by the session at the end of the previous step
 }
 
@@ -216,7 +216,6 @@ func runC01(c *core.Ctx) {
 	c.Set("depth_completed_absolute_keys", minDepth)
 	c.Set("depth_target_relative_keys", relDepth)
 }
-
 
 // runC01Sched: the expected inbound number as the counter file holds it, under every interleaving (preemption bound 2,
 // thorough 3) of the session thread consuming inbound messages with an application thread sending, with the file
